@@ -55,11 +55,23 @@ def job_seps(j):
 
 def job_refs(j):
     out = []
-    for name, sep in j["cases"]:
+    import flumine.config as fconfig
+    for case in j["cases"]:
+        name, sep = case[0], case[1]
         strat = S(market_filter={}, name=name)
         trade = Trade("1.1", 1, 0, strat)
-        s = "".join(chr(c) for c in sep)
-        o = trade.create_order("BACK", LimitOrder(2.0, 2.0), sep=s)
+        if len(case) > 2:
+            # the order is created WITHOUT a separator argument while config.order_sep holds some run-time value (valid or not):
+            # whatever default applies, the reference must be valid
+            saved = fconfig.order_sep
+            fconfig.order_sep = "".join(chr(c) for c in case[2])
+            try:
+                o = trade.create_order("BACK", LimitOrder(2.0, 2.0))
+            finally:
+                fconfig.order_sep = saved
+        else:
+            s = "".join(chr(c) for c in sep)
+            o = trade.create_order("BACK", LimitOrder(2.0, 2.0), sep=s)
         out.append([cps(strat.name_hash), cps(o.sep), cps(o.id), cps(o.customer_order_ref)])
     return out
 
